@@ -17,41 +17,48 @@ def twelveHours : Int := 43200 * sec
 /-! ### the lease a referral grants -/
 
 /-- **lease_def.** The deadline `processDelegation` computes for a referral
-observed at `obs` is the minimum of `obs + NS TTL`, `obs + min DS TTL` (when a DS
-set is retained) and the inherited ancestor cut: it is never later than any of
-them and equals one of them. What `SetUntil` then stores at `now` is that
-deadline, lowered to `now + M`; a deadline that is not in the future is not
-stored at all. -/
+observed at `obs` is the minimum of `obs + NS TTL`, `obs + M` (the 12 h ceiling,
+measured from the observation), `obs + min DS TTL` (when a DS set is retained)
+and the inherited ancestor cut: it is never later than any of them and equals
+one of them. `SetUntil`, called at any `now ≥ obs`, stores exactly that deadline
+(its own `now + M` clamp can no longer bind); a deadline that is not in the
+future is not stored at all. -/
 theorem lease_def (cut : Deadline) (cutKey key : Nat) (obs : Int) (nsTTL : Nat) (dsTTLs : List Nat) (M now : Int)
-    (hM : 0 < M) :
-    ∃ d, (childCut cut cutKey obs nsTTL dsTTLs key).1 = some d ∧
+    (hnow : obs ≤ now) :
+    ∃ d, (childCut M cut cutKey obs nsTTL dsTTLs key).1 = some d ∧
       d ≤ obs + (nsTTL : Int) * sec ∧
+      d ≤ obs + M ∧
       (∀ t ∈ dsTTLs, d ≤ obs + (t : Int) * sec) ∧
       (∀ a, cut = some a → d ≤ a) ∧
-      (d = obs + (nsTTL : Int) * sec ∨ (dsTTLs ≠ [] ∧ d = obs + (minRRSetTTL dsTTLs : Int) * sec) ∨ cut = some d) ∧
+      (d = obs + (nsTTL : Int) * sec ∨ d = obs + M ∨
+        (dsTTLs ≠ [] ∧ d = obs + (minRRSetTTL dsTTLs : Int) * sec) ∨ cut = some d) ∧
       (d ≤ now → clampUntil M now (some d) = none) ∧
-      (∀ v, clampUntil M now (some d) = some v → now < v ∧ v ≤ d ∧ v ≤ now + M ∧ (v = d ∨ v = now + M)) := by
+      (now < d → clampUntil M now (some d) = some d) := by
   unfold childCut
-  obtain ⟨d, hd, hle, hcut, hor⟩ := minCut_some_right cut cutKey key (leaseDeadline obs nsTTL dsTTLs)
-  have hlease := leaseDeadline_spec obs nsTTL dsTTLs
-  obtain ⟨h1, h2, h3⟩ := hlease
-  refine ⟨d, hd, by omega, ?_, hcut, ?_, ?_, ?_⟩
+  obtain ⟨d, hd, hle, hcut, hor⟩ := minCut_some_right cut cutKey key (leaseDeadline M obs nsTTL dsTTLs)
+  obtain ⟨h1, hM, h2, h3⟩ := leaseDeadline_spec M obs nsTTL dsTTLs
+  refine ⟨d, hd, by omega, by omega, ?_, hcut, ?_, ?_, ?_⟩
   · intro t ht; have := h2 t ht; omega
   · rcases hor with h | h
-    · rcases h3 with h3 | ⟨hne, h3⟩
+    · rcases h3 with h3 | h3 | ⟨hne, h3⟩
       · exact Or.inl (by omega)
-      · exact Or.inr (Or.inl ⟨hne, by omega⟩)
-    · exact Or.inr (Or.inr h)
+      · exact Or.inr (Or.inl (by omega))
+      · exact Or.inr (Or.inr (Or.inl ⟨hne, by omega⟩))
+    · exact Or.inr (Or.inr (Or.inr h))
   · intro h; exact (clampUntil_none M now d).mpr h
-  · intro v hv
-    obtain ⟨a, b, c, e⟩ := clampUntil_some M now d v hv
-    exact ⟨by rcases e with e | e <;> omega, b, c, e⟩
+  · intro h
+    unfold clampUntil
+    have : ¬ now + M < d := by omega
+    simp [h, this]
 
 -- non-vacuity: NS 300 s, DS {3600, 60} s, ancestor cut at 45 s: the ancestor wins; stored verbatim
-example : (childCut (some (45 * sec)) 7 0 300 [3600, 60] 9).1 = some (45 * sec) ∧
+example : (childCut twelveHours (some (45 * sec)) 7 0 300 [3600, 60] 9).1 = some (45 * sec) ∧
     clampUntil twelveHours 5 (some (45 * sec)) = some (45 * sec) := by decide
 -- DS shorter than NS, no ancestor: the DS TTL is the lease
-example : (childCut none 0 0 300 [3600, 60] 9) = (some (60 * sec), 9) := by decide
+example : (childCut twelveHours none 0 0 300 [3600, 60] 9) = (some (60 * sec), 9) := by decide
+-- a two-day NS TTL: the ceiling from the observation is the lease, and SetUntil one second later stores it verbatim
+example : (childCut twelveHours none 0 0 172800 [] 9) = (some twelveHours, 9) ∧
+    clampUntil twelveHours sec (some twelveHours) = some twelveHours := by decide
 
 /-! ### authority.Cache -/
 
@@ -111,7 +118,10 @@ example : (({} : ACache).set twelveHours 0 1 5 (4 * sec)).get (4 * sec - 1) 1 = 
 
 /-- the tree's ceiling is at most 12 h (one-directional: lowering it is harmless) -/
 theorem ceiling_is_12h : (SdnsVerif.Gen.C08.maximumTTL_ns : Int) ≤ twelveHours ∧
-    (0 : Int) < SdnsVerif.Gen.C08.maximumTTL_ns := by decide
+    (0 : Int) < SdnsVerif.Gen.C08.maximumTTL_ns ∧
+    -- the ceiling the resolver applies to the lease (`authority.MaximumTTL`) is not above the
+    -- one the delegation cache applies (`maximumTTL`): the model's single `M` stands for both
+    SdnsVerif.Gen.C08.lease_ceiling_ns ≤ SdnsVerif.Gen.C08.maximumTTL_ns := by decide
 
 /-- **setuntil_ceiling.** After `SetUntil(key, …, d)` at `now`, whatever `Get`
 returns for `key` is either what it returned before the call, or expires no
@@ -166,45 +176,28 @@ theorem descendant_le_ancestor (M : Int) (evs : List Ev) :
   obtain ⟨h1, h2, h3, h4⟩ := (inv_run M evs init (inv_init M)).delegs e he
   exact ⟨h1, h2, h3, fun p hp => (h4 p hp).1⟩
 
-/-
-Full statement one would like for the STORED expiry of the ancestors:
-
-    descendant_le_stored_ancestor :  ∀ e ∈ (run M init evs).delegs, ∀ p ∈ e.path, e.expiresAt ≤ p.stored
-
-It is FALSE for the code as it is (and for this model of it): `rs.cutDeadline`
-carries the ancestor's deadline BEFORE `SetUntil` applied the 12 h ceiling, so
-when an ancestor's NS/DS TTL exceeds 12 h a descendant learned later in the same
-resolution is stored with `its own now + 12 h`, later than the ancestor's
-`earlier now + 12 h` (`ceiling_gap_reachable` below is the machine-checked
-witness).  What does hold is the bound with the elapsed time added.
--/
-
-/-- **descendant_le_stored_ancestor_partial.** A stored delegation outlives the
-STORED expiry of a shallower delegation on its path by at most the time that
-passed between the two observations (and not at all unless the 12 h ceiling,
-rather than the TTLs, decided the ancestor's expiry). Missing for the full
-statement: the cut handed down the descent is not lowered to the ceiling. -/
-theorem descendant_le_stored_ancestor_partial (M : Int) (evs : List Ev) :
+/-- **descendant_le_stored_ancestor.** In every reachable state a stored
+delegation expires no later than the expiry the delegation cache STORED for
+every shallower delegation on its path (the lease is lowered to
+`observedAt + M` before anything derives from it, so `SetUntil` never lowers it
+further and `stored = deadline` for every path element). -/
+theorem descendant_le_stored_ancestor (M : Int) (evs : List Ev) :
     ∀ e ∈ (run M init evs).delegs, ∀ p ∈ e.path,
-      p.obs ≤ e.observedAt ∧ e.expiresAt ≤ p.stored + (e.observedAt - p.obs) ∧
-      (p.deadline ≤ p.obs + M → e.expiresAt ≤ p.stored) := by
+      p.obs ≤ e.observedAt ∧ e.expiresAt ≤ p.stored := by
   intro e he p hp
-  obtain ⟨_, _, h3, h4⟩ := (inv_run M evs init (inv_init M)).delegs e he
+  obtain ⟨_, _, _, h4⟩ := (inv_run M evs init (inv_init M)).delegs e he
   obtain ⟨h5, h6, h7⟩ := h4 p hp
-  refine ⟨h7, ?_, ?_⟩
-  · rcases h6 with h | h <;> omega
-  · intro hd; rcases h6 with h | h <;> omega
+  exact ⟨h7, by unfold ElemOK at h6; omega⟩
 
-/-- a history in which a grandchild is stored with a later expiry than its
-parent zone: both referrals carry a 2-day TTL, one second passes between them -/
+/-- two referrals with a 2-day TTL, one second apart: before the ceiling was
+moved into `processDelegation` this history stored the grandchild one second
+past its parent zone (the former counter-witness); now both end together. -/
 def gapHistory : List Ev :=
   [.start [1, 2, 3], .referral [1] [172800] [], .tick 1000000000, .referral [1, 2] [172800] []]
 
-theorem ceiling_gap_reachable :
-    ∃ e ∈ (run twelveHours init gapHistory).delegs, ∃ p ∈ e.path, p.stored < e.expiresAt := by
-  refine ⟨⟨[1, 2], twelveHours + 1000000000, 1000000000, 172800 * sec, [⟨[1], 172800 * sec, twelveHours, 0⟩]⟩, ?_, ?_⟩
-  · decide
-  · exact ⟨⟨[1], 172800 * sec, twelveHours, 0⟩, by decide, by decide⟩
+example : (run twelveHours init gapHistory).delegs =
+    [⟨[1, 2], twelveHours, 1000000000, twelveHours, [⟨[1], twelveHours, twelveHours, 0⟩]⟩,
+     ⟨[1], twelveHours, 0, twelveHours, []⟩] := by decide
 
 -- non-vacuity of `descendant_le_ancestor`: a child with a 1 h lease under a 60 s parent lease
 example : (run twelveHours init [.start [1, 2, 3], .referral [1] [60] [], .referral [1, 2] [3600] [30000]]).delegs =
@@ -242,9 +235,9 @@ theorem no_self_extension (M : Int) (hM : 0 < M) (s : Sys) (ev : Ev) :
   have key : (step M s ev).delegs = s.delegs ∨ (∃ z, ev = .purge z ∧ (step M s ev).delegs = s.delegs.filter (fun e => e.zone != z)) ∨
       (∃ z nsTTLs dsTTLs r rest v cd, ev = .referral z nsTTLs dsTTLs ∧ s.stack = r :: rest ∧
         progressing r.zone z r.qname = true ∧ liveEntry s.delegs s.now z = none ∧
-        (minCut r.cut 0 (some (leaseDeadline s.now (minRRSetTTL nsTTLs) dsTTLs)) 0).1 = some cd ∧
+        (minCut r.cut 0 (some (leaseDeadline M s.now (minRRSetTTL nsTTLs) dsTTLs)) 0).1 = some cd ∧
         clampUntil M s.now (some cd) = some v ∧
-        (step M s ev).delegs = ⟨z, v, s.now, leaseDeadline s.now (minRRSetTTL nsTTLs) dsTTLs - s.now, r.path⟩ :: s.delegs) := by
+        (step M s ev).delegs = ⟨z, v, s.now, leaseDeadline M s.now (minRRSetTTL nsTTLs) dsTTLs - s.now, r.path⟩ :: s.delegs) := by
     cases ev with
     | tick d => exact Or.inl rfl
     | start q => exact Or.inl rfl
@@ -261,7 +254,7 @@ theorem no_self_extension (M : Int) (hM : 0 < M) (s : Sys) (ev : Ev) :
         simp only
         by_cases hprog : progressing r.zone z r.qname = true
         · simp only [hprog, Bool.not_true, Bool.false_eq_true, if_false]
-          obtain ⟨cd, hcd, _⟩ := minCut_some_right r.cut 0 0 (leaseDeadline s.now (minRRSetTTL nsTTLs) dsTTLs)
+          obtain ⟨cd, hcd, _⟩ := minCut_some_right r.cut 0 0 (leaseDeadline M s.now (minRRSetTTL nsTTLs) dsTTLs)
           rw [hcd]; simp only
           cases hlive : liveEntry s.delegs s.now z with
           | some e => exact Or.inl rfl
@@ -301,14 +294,9 @@ theorem no_self_extension (M : Int) (hM : 0 < M) (s : Sys) (ev : Ev) :
     · rw [h] at he'
       rcases List.mem_cons.mp he' with rfl | he'
       · obtain ⟨hnow, hvcd, _, hvor⟩ := clampUntil_some M s.now cd v hcl
-        obtain ⟨c, hc, hcle, _, _⟩ := minCut_some_right r.cut 0 0 (leaseDeadline s.now (minRRSetTTL ns) ds)
+        obtain ⟨c, hc, hcle, _, _⟩ := minCut_some_right r.cut 0 0 (leaseDeadline M s.now (minRRSetTTL ns) ds)
         rw [hcd] at hc; cases hc
-        have hl : leaseDeadline s.now (minRRSetTTL ns) ds ≤ s.now + (minRRSetTTL ns : Int) * sec := by
-          unfold leaseDeadline
-          by_cases hds : ds.isEmpty = true
-          · simp [hds]
-          · simp only [hds, Bool.false_eq_true, if_false]
-            split <;> omega
+        have hl := (leaseDeadline_spec M s.now (minRRSetTTL ns) ds).1
         refine ⟨ns, ds, r, rest, hev, hst, hprog, hnone, rfl, ?_, ?_⟩
         · simp only; rcases hvor with h | h <;> omega
         · simp only; omega
@@ -376,8 +364,9 @@ example : (foldCuts {} [(some 30, 1), (none, 2), (some 10, 3), (some 20, 4)]).cu
 /-- **shape_facts_hold.** The current `resolver.go` has the shape the event
 system assumes: in `processDelegation` the single clock read
 `observedAt := time.Now()` precedes `validateDelegation` and is the only one
-before `SetUntil`; `leaseDeadline` is only ever `observedAt.Add(…)`, lowered by
-the retained DS set's minimum TTL; the value handed to `delegations.SetUntil`,
+before `SetUntil`; `leaseDeadline` is only ever `observedAt.Add(…)`, lowered to
+`observedAt.Add(authority.MaximumTTL)` right after it is computed (before
+`validateDelegation`, `minCut`, `noteCut`) and by the retained DS set's minimum TTL; the value handed to `delegations.SetUntil`,
 to `noteCut` and down the descent is the `minCut(rs.cutDeadline, …,
 leaseDeadline, …)` result; `validReferral` is tested (and returns) before any
 of it; a live cached delegation is used without a store; the provisional entry
@@ -388,6 +377,7 @@ theorem shape_facts_hold :
     SdnsVerif.Gen.C08.shape_observed_before_validate = true ∧
     SdnsVerif.Gen.C08.shape_single_clock_read = true ∧
     SdnsVerif.Gen.C08.shape_lease_anchored_at_observation = true ∧
+    SdnsVerif.Gen.C08.shape_lease_clamped_at_observation = true ∧
     SdnsVerif.Gen.C08.shape_ds_bounds_lease = true ∧
     SdnsVerif.Gen.C08.shape_setuntil_from_mincut = true ∧
     SdnsVerif.Gen.C08.shape_notecut_after_each_cut = true ∧
